@@ -151,7 +151,7 @@ static int do_list(int const *v, int n, FILE *fo)
     fputs(",\"mac\":[", fo);
     for (int q = 1; q <= 2; ++q)
     {
-        int vis[6][MAXID + 2], nv[6] = {0, 0, 0, 0, 0, 0};
+        int vis[8][MAXID + 2], nv[8] = {0, 0, 0, 0, 0, 0, 0, 0};
         a_list *it, *at, *hd = &ln[K + q];
 #define VISIT(k, x) do { if (nv[k] <= MAXID) { vis[k][nv[k]++] = lid(x); } else { goto done##k; } } while (0)
         A_LIST_FOREACH_NEXT(it, hd) { VISIT(0, it); } done0:;
@@ -160,8 +160,10 @@ static int do_list(int const *v, int n, FILE *fo)
         a_list_foreach_prev(jt, hd) { VISIT(3, jt); } done3:;
         A_LIST_FORSAFE_NEXT(it, at, hd) { VISIT(4, it); } done4:;
         A_LIST_FORSAFE_PREV(it, at, hd) { VISIT(5, it); } done5:;
+        a_list_forsafe_next(kt, lt, hd) { VISIT(6, kt); } done6:;
+        a_list_forsafe_prev(kt, lt, hd) { VISIT(7, kt); } done7:;
 #undef VISIT
-        for (int k = 0; k < 6; ++k)
+        for (int k = 0; k < 8; ++k)
         {
             fputs(q == 1 && k == 0 ? "" : ",", fo);
             put_seq(fo, vis[k], nv[k]);
@@ -246,14 +248,15 @@ static int do_slist(int const *v, int n, FILE *fo)
     fputs(",\"mac\":[", fo);
     for (int w = 1; w <= 2; ++w)
     {
-        int vis[3][MAXID + 2], nv[3] = {0, 0, 0};
+        int vis[4][MAXID + 2], nv[4] = {0, 0, 0, 0};
         a_slist_node *it, *at;
 #define VISIT(k, x) do { if (nv[k] <= MAXID) { vis[k][nv[k]++] = sid(x, K); } else { goto sdone##k; } } while (0)
         A_SLIST_FOREACH(it, &sl[w]) { VISIT(0, it); } sdone0:;
         a_slist_foreach(jt, &sl[w]) { VISIT(1, jt); } sdone1:;
         A_SLIST_FORSAFE(it, at, &sl[w]) { VISIT(2, it); } sdone2:;
+        a_slist_forsafe(kt, lt, &sl[w]) { VISIT(3, kt); } sdone3:;
 #undef VISIT
-        for (int k = 0; k < 3; ++k)
+        for (int k = 0; k < 4; ++k)
         {
             fputs(w == 1 && k == 0 ? "" : ",", fo);
             put_seq(fo, vis[k], nv[k]);
